@@ -115,6 +115,7 @@ def parseObs (line : String) : Obs :=
   | "dec" :: p :: ts => .dec p (parseDecRuns ts)
   | "tra" :: p :: ts => .tra p (parseTraRuns ts)
   | ["dt", ret, body] => .dt ((ret.drop 4).toString) (if body == "-" then [] else body.splitOn "|")
+  | ["dta", body] => .dta (if body == "-" then [] else body.splitOn "|")
   | ["ce", t] => .ce t
   | ["r", "load", _, "!fail"] => .loadFail
   | "crash" :: _ => .crash line
